@@ -1,5 +1,7 @@
 """C23 — V1→V2 migration preserves exactly the loadable data."""
+import os
 import re
+import shutil
 
 from . import common as K
 
@@ -121,6 +123,13 @@ def run(ctx):
                         "what_fails": "the V1 writer left keys %s in more than one chunk: the legacy load of this folder is not a function" % [bytes.fromhex(k).decode() for k in dupk]}
     K.decide_standard(ctx, corrs, FINDINGS)
     K.report_mismatch(ctx, spec_violated)
+    # the generator's scratch area (the folders the ops refer to); kept when something failed, for the replay
+    for op in c.ops:
+        if op.startswith("mig "):
+            base = os.path.dirname(op.split(" ")[1])
+            if os.path.basename(base).startswith("hv-c23-") and not ctx.violations and not getattr(ctx, "pending_mismatch", None):
+                shutil.rmtree(base, ignore_errors=True)
+            break
     for fid, rep in sorted(extra.items()):
         if fid in known:
             ctx.known_hits.append((fid, known[fid].get("what", fid)))
